@@ -119,6 +119,15 @@ impl Monitor for C06 {
                 });
             }
         }
+        // a re-signed copy of a transaction of the block (same body, one more signature): a second element of
+        // the set that spends the same coins
+        if let Some(t) = blk.transactions.iter().find(|t| !t.inputs.is_empty()).cloned() {
+            let mut copy = t.clone();
+            copy.sigs.push(vec![0u8; 64].into());
+            hm!("add-resigned-copy-of-a-transaction", |b: &mut Block| {
+                b.transactions.insert(copy.clone());
+            });
+        }
         // an added transaction: a faucet (valid off mainnet: changes the state; invalid on mainnet)
         let mut extra = Transaction::new(TxKind::Faucet);
         extra.outputs.push(CoinData { covhash: CovSpec::True.hash(), value: CoinValue(7), denom: Denom::Mel, additional_data: Default::default() });
